@@ -589,3 +589,22 @@ pub fn independent_declared(bytes: &[u8], zone: usize) -> Option<String> {
     }
     None
 }
+
+/// The answer of a brand-new process to one detection (`verif-harness fresh`): the reference against which answers
+/// inside a history are compared when the state a history may leave behind is not reachable through the cache-flush
+/// hook (thread-locals, statics outside the memo caches). `None` if the child did not produce an answer.
+pub fn fresh_process_detect(bytes: &[u8], sett: &Sett) -> Option<String> {
+    use std::sync::atomic::{AtomicUsize, Ordering};
+    static N: AtomicUsize = AtomicUsize::new(0);
+    let root = std::env::var("VERIF_ROOT").unwrap_or_else(|_| "/verif".into());
+    let dir = format!("{}/replays/.fresh", root);
+    let _ = std::fs::create_dir_all(&dir);
+    let path = format!("{}/case-{}-{}.json", dir, std::process::id(), N.fetch_add(1, Ordering::SeqCst));
+    let body = format!("{{\"bytes_hex\":\"{}\",\"settings\":{}}}\n", crate::util::hex(bytes), sett.json());
+    std::fs::write(&path, body).ok()?;
+    let out = std::process::Command::new(std::env::current_exe().ok()?).arg("fresh").arg(&path).output();
+    let _ = std::fs::remove_file(&path);
+    let out = out.ok()?;
+    let text = String::from_utf8_lossy(&out.stdout).to_string();
+    text.lines().find_map(|l| l.strip_prefix("FRESH ").map(|x| x.to_string()))
+}
